@@ -267,6 +267,26 @@ pub fn c06_streams(thorough: bool) -> Vec<GenStream> {
         v.extend(streams::token_sequences(None, 2));
         v.extend(streams::block_sequences(Some((7, 0)), 2, &[0, 3], streams::BLOCK_KINDS));
     }
+    // encoded lengths around multiples of 256 (and 65536): counters of consumed / handed-back bytes
+    // narrower than usize would wrap there. A fixed block of k 8-bit literals is exactly k + 2 bytes.
+    let mut lens: Vec<usize> = (246..=258).chain(502..=514).collect();
+    if thorough {
+        lens.extend(758..=770);
+        lens.extend(65530..=65542);
+    } else {
+        lens.extend([65535, 65536]);
+    }
+    for l in lens {
+        for z in [None, Some((7u8, 2u8))] {
+            if !thorough && l > 60_000 && z.is_some() {
+                continue;
+            }
+            let t: Vec<crate::refmodel::Token> = (0..l - 2).map(|i| crate::refmodel::Token::Lit(b'a' + (i % 26) as u8)).collect();
+            let mut b = crate::gen::StreamBuilder::new(z);
+            b.fixed(&t, true);
+            v.push(b.finish());
+        }
+    }
     // outputs of 32768*k + small, so the end arrives just after the ring wrapped / a full window was handed out
     for extra in [0usize, 1, 5, 12] {
         for z in [None, Some((7u8, 2u8))] {
@@ -296,15 +316,18 @@ pub fn run(tier: &str) -> i32 {
         let s = &ss[i];
         watchdog::tick(i as u64, 0);
         let big = s.bytes.len() > 4000;
+        // the encoded-length family (one literal block of k+2 bytes) is about the length, not the
+        // trailer: the reduced trailer menu is enough there
+        let lenfam = s.bytes.len() > 240 && s.nblocks == 1 && s.plain.len() + 8 >= s.bytes.len() && s.desc.contains("fixed(");
         for &tl in &tlens {
-            if big && ![0usize, 1, 4, 12].contains(&tl) {
+            if (big || lenfam) && ![0usize, 1, 4, 12].contains(&tl) {
                 continue;
             }
             for kind in 0..3u8 {
                 if tl == 0 && kind > 0 {
                     continue;
                 }
-                if big && kind != 1 && tl > 0 {
+                if (big || lenfam) && kind != 1 && tl > 0 {
                     continue;
                 }
                 let mut data = s.bytes.clone();
